@@ -213,3 +213,7 @@ def run(tier, V):
                    'a command that leaves the text unchanged may or may not create an undo entry: the history is cut there (counted in binary_history_cuts)',
                    ':w! dump of a named buffer to another path does not touch undo state']
     return cov, assumptions
+
+
+def REPLAY(w):
+    return run_history((build('asan'), w['mode'], w['index']))[:2] if 'mode' in w else 'probe witness: ops listed in the file'
